@@ -320,6 +320,20 @@ def run_names(ctx, xc, obls):
             (" -> " + o["comp2"]) if o["kind"] == "pair" else (" header " + o["hdr"]) if o["kind"] == "check" else "",
             "label %s, format %s" % (o["hdr"], o["f"]) if o["kind"] == "produce" else o["expect"], r.get("label"), r.get("formats"),
             r.get("decoded"), r.get("note", "")), dict(component="names", obl=o))
+    # "the same encoding name denotes the same algorithm": for the formats that are a series of members / frames, every
+    # consumer of a name must treat a two-member stream alike (the peers use their RPC library's gzip, the tracer and the
+    # raw-payload side the repository's own)
+    groups = {}
+    for r in rows:
+        if r.get("members") is not None and r.get("repro", 3) >= 3:
+            groups.setdefault((r["obl"]["n"], r["obl"]["f"]), {})[r["obl"]["comp"]] = r["members"]
+    for (n, f), by in sorted(groups.items()):
+        if len(set(by.values())) > 1:
+            ctx.candidate(dict(component="names", kind="members-disagree", enc=n, format=f),
+                          "name table: a %s stream of two members labelled %s is decoded whole by %s but not by %s" % (
+                              f, n, sorted(c for c, v in by.items() if v), sorted(c for c, v in by.items() if not v)),
+                          dict(component="names", members=by, enc=n, format=f))
+    ctx.notes["names_members"] = {"%s/%s" % k: v for k, v in groups.items()}
     ctx.cov["evaluations"] += summ["obligations"]
     ctx.cov["traces_validated_against_impl"] += summ["obligations"]
     ctx.cov["distinct_nontrivial"] += summ["obligations"]
